@@ -119,6 +119,8 @@ def run(case):
 
     # ---- Trajectory.split
     for equal in (False, True):
+        if case.get('touch'):
+            gcall(traj.distances_from_base_position)  # leaves the source in the displacement representation
         tp = gcall(traj.split, n, equal_parts=equal)
         if len(tp) != n:
             raise Violation('trajectory-n-parts', f'{len(tp)} parts for n_parts={n}')
@@ -184,6 +186,7 @@ def split_cases(draw, tier):
     elif mode == 'never-inner':  # every arrival is only a candidate jump, so the minimal residence decides
         c['inner'] = (np.array(c['states']) * 0 - 1).tolist()
     c['n_parts'] = draw(st.integers(0, 40))
+    c['touch'] = draw(st.booleans())
     c['prefer_multi'] = draw(st.sampled_from([True, True, True, False]))
     c['residences'] = draw(st.sampled_from([[0], [0, 2], [0, 5], [1, 8]]))
     return c
